@@ -14,7 +14,7 @@ def rng_of(seed, *salt):
 
 
 def word_classes_for(enc, paren=False):
-    allow = ["ascii", "xml", "len", "latin1"]
+    allow = ["ascii", "xml", "len", "latin1", "hash"]
     if enc != "latin-1":
         allow.append("wide")
     if paren:
